@@ -75,3 +75,11 @@ package ipnisync
 //@   at call Load#1: after ghost present := result0 != nil && result1 == nil
 //@   ensures-local present ==> result == nil && count("call:fetch") == 0
 //@   ensures-local !present ==> count("call:fetch") == 1
+
+// The two schema names this package defines are always accepted.
+//@ func CtxWithCidSchema
+//@   property C01
+//@   pure
+//@   requires ctx != nil
+//@   ensures str(cidSchemaType) == str(CidSchemaAdvertisement) || str(cidSchemaType) == str(CidSchemaEntryChunk) || str(cidSchemaType) == str("") ==> result1 == nil
+//@   ensures result0 != nil
